@@ -181,16 +181,16 @@ Theorem n2s_impl_eq_spec_special prec :
   impl_n2s XNaN = spec_n2s prec XNaN /\ (forall neg, impl_n2s (XInf neg) = spec_n2s prec (XInf neg)).
 Proof. split; [reflexivity|intro neg; reflexivity]. Qed.
 
-(* "%03.1Lf": one fraction digit only *)
+(* '%03.1Lf': one fraction digit only *)
 Example n2s_quarter_refuted :
   impl_n2s (XFin false (1 # 4)) = B [48; 46; 50] /\ spec_n2s 53 (XFin false (1 # 4)) = B [48; 46; 50; 53].
 Proof. split; vm_compute; reflexivity. Qed.
-(* string(-0.05): the long double nearest to 0.05 rounds to "-0.1"; the recommendation gives "-0.05" *)
+(* string(-0.05): the long double nearest to 0.05 rounds to '-0.1'; the recommendation gives '-0.05' *)
 Example n2s_minus_005_refuted :
   impl_n2s (impl_s2n 64 (B [45; 48; 46; 48; 53])) = B [45; 48; 46; 49] /\
   spec_n2s 53 (spec_s2n 53 (B [45; 48; 46; 48; 53])) = B [45; 48; 46; 48; 53].
 Proof. split; vm_compute; reflexivity. Qed.
-(* integers beyond the long long range get ".0" *)
+(* integers beyond the long long range get '.0' *)
 Example n2s_big_refuted :
   impl_n2s (XFin false (inject_Z (2 ^ 63))) = B [57;50;50;51;51;55;50;48;51;54;56;53;52;55;55;53;56;48;56;46;48] /\
   spec_n2s 53 (XFin false (inject_Z (2 ^ 63))) = B [57;50;50;51;51;55;50;48;51;54;56;53;52;55;55;53;56;48;56].
